@@ -3,7 +3,9 @@
 (patch.diff, the demonstration demo.rs, the author's notes.md, meta.json)."""
 import json, os, re, shutil, sys, glob
 
-SRC = "/tmp/mut"
+# usage: keep_mutants.py [src-dir [first-letter]]   (round 1: /tmp/mut a; round 2: /tmp/mut2 c)
+SRC = sys.argv[1] if len(sys.argv) > 1 else "/tmp/mut"
+FIRST = sys.argv[2] if len(sys.argv) > 2 else "a"
 DST = "/verif/seeded"
 confirm = {}
 for log in sorted(glob.glob(f"{SRC}/confirm*.log")):
@@ -48,10 +50,10 @@ for d in sorted(glob.glob(f"{SRC}/C??/mutant-?")):
     if not c or not c["confirmed"]:
         print("skip (not confirmed):", rel, c)
         continue
-    sid = f"{prop}-{which[-1]}"
+    sid = f"{prop}-{chr(ord(FIRST) + ord(which[-1]) - ord('a'))}"
     out = f"{DST}/{sid}"
     os.makedirs(out, exist_ok=True)
-    for f in ("patch.diff", "demo.rs", "notes.md"):
+    for f in ("patch.diff", "patch.orig.diff", "demo.rs", "notes.md"):
         if os.path.exists(f"{d}/{f}"):
             shutil.copy(f"{d}/{f}", f"{out}/{f}")
     extra = meta_extra.get(sid, {})
